@@ -81,7 +81,7 @@ func exhaustiveTable() []caseDef {
 		add(base("renameio.Symlink", shared.OpSymlink, st, tmpSandbox))
 	}
 	for _, st := range states {
-		for _, tmp := range []string{tmpSandbox, tmpForeign, tmpExplicit} {
+		for _, tmp := range []string{tmpSandbox, tmpForeign, tmpExplicit, tmpExplicitForeign} {
 			add(base("utils.CreateAtomic", shared.OpCreateAtomic, st, tmp))
 		}
 		c := base("utils.CreateAtomic", shared.OpCreateAtomic, st, tmpSandbox)
@@ -110,6 +110,10 @@ func exhaustiveTable() []caseDef {
 		c := base("utils.CopyFileAtomic", shared.OpCopyAtomic, st, tmpForeign)
 		c.Perm = 0o600
 		add(c)
+		if st != stPresentMode {
+			add(base("utils.CopyFileAtomic", shared.OpCopyAtomic, st, tmpExplicitForeign))
+			add(base("utils.ReplaceFileAtomic", shared.OpReplaceAtomic, st, tmpExplicitForeign))
+		}
 	}
 	for _, st := range states {
 		for _, tmp := range []string{tmpSandbox, tmpForeign} {
@@ -458,10 +462,10 @@ func genCase(t *rapid.T) caseDef {
 	variants := []variant{
 		{"renameio.WriteFile", shared.OpWriteFile, all3, []string{tmpSandbox, tmpForeign}},
 		{"renameio.Symlink", shared.OpSymlink, []string{stAbsent, stPresent, stPresentFile}, []string{tmpSandbox}},
-		{"utils.CreateAtomic", shared.OpCreateAtomic, all3, []string{tmpSandbox, tmpForeign, tmpExplicit}},
+		{"utils.CreateAtomic", shared.OpCreateAtomic, all3, []string{tmpSandbox, tmpForeign, tmpExplicit, tmpExplicitForeign}},
 		{"utils.CreateAtomic(failing reader)", shared.OpCreateAtomic, []string{stAbsent, stPresent}, []string{tmpSandbox, tmpExplicit}},
-		{"utils.CopyFileAtomic", shared.OpCopyAtomic, all3, []string{tmpSandbox, tmpForeign, tmpExplicit}},
-		{"utils.ReplaceFileAtomic", shared.OpReplaceAtomic, all3, []string{tmpSandbox, tmpForeign, tmpExplicit}},
+		{"utils.CopyFileAtomic", shared.OpCopyAtomic, all3, []string{tmpSandbox, tmpForeign, tmpExplicit, tmpExplicitForeign}},
+		{"utils.ReplaceFileAtomic", shared.OpReplaceAtomic, all3, []string{tmpSandbox, tmpForeign, tmpExplicit, tmpExplicitForeign}},
 		{"fstree.Put", shared.OpFstreePut, all3, []string{tmpSandbox, tmpForeign}},
 		{"fstree.Put(nested key)", shared.OpFstreePut, []string{stAbsent, stPresent}, []string{tmpSandbox, tmpForeign}},
 		{"updater.GetFile", shared.OpGetFile, all3, []string{tmpSandbox}},
@@ -490,7 +494,7 @@ func genCase(t *rapid.T) caseDef {
 		c.Perm = rapid.SampledFrom([]uint32{0o644, 0o600, 0o755}).Draw(t, "perm")
 	case shared.OpCreateAtomic, shared.OpCopyAtomic, shared.OpReplaceAtomic:
 		c.Perm = rapid.SampledFrom([]uint32{0, 0, 0o644, 0o600, 0o640}).Draw(t, "mode_option")
-		if c.Tmp != tmpExplicit && c.Perm == 0 {
+		if c.Tmp != tmpExplicit && c.Tmp != tmpExplicitForeign && c.Perm == 0 {
 			c.NilOpts = rapid.Bool().Draw(t, "nil_opts")
 		}
 	}
